@@ -84,17 +84,18 @@ theorem asciiLoop_ok (o : Oracle) (fuel : Nat) (s : S) (evs : List Ev) (hl : s.t
     iflags and every behaviour of the callbacks (return, LPC error, destruct), no access leaves `text[]`,
     `sb_buf[]` or the local `buf[]`, and `text_start ≤ text_end ≤ MAX_TEXT-1` holds afterwards -/
 theorem getUserData_ok' (o : Oracle) {s : S} (h : Inv s) :
-    ∃ s' evs, getUserData o s = .ok (s', evs) ∧ Inv s' ∧ s'.dec.fl.single = s.dec.fl.single := by
+    ∃ s' evs, getUserData o s = .ok (s', evs) ∧ Inv s' ∧ s'.dec.fl.single = s.dec.fl.single ∧ s'.port = s.port ∧
+      (s.port ≠ .telnet → s'.dec = s.dec) := by
   unfold getUserData
   split
-  · exact ⟨_, _, rfl, h, rfl⟩
+  · exact ⟨_, _, rfl, h, rfl, rfl, fun _ => rfl⟩
   · obtain ⟨s1, sp, hcs, ok⟩ := computeSpace_ok h
     rw [hcs]
     dsimp only
     split
-    · exact ⟨_, _, rfl, ok.inv, by rw [ok.dec]⟩
+    · exact ⟨_, _, rfl, ok.inv, by rw [ok.dec], ok.port, fun _ => ok.dec⟩
     · split
-      · exact ⟨_, _, rfl, ⟨ok.inv.textLen, ok.inv.se, ok.inv.eMax, ok.inv.dec⟩, by dsimp only; rw [ok.dec]⟩
+      · exact ⟨_, _, rfl, ⟨ok.inv.textLen, ok.inv.se, ok.inv.eMax, ok.inv.dec⟩, by dsimp only; rw [ok.dec], ok.port, fun _ => ok.dec⟩
       · have htake : (s1.sock.take sp).length ≤ sp := by simp; omega
         have hroomA := ok.roomA
         have c1 : ¬ ((s1.sock.take sp).length ≥ MAXT) := by omega
@@ -110,7 +111,8 @@ theorem getUserData_ok' (o : Oracle) {s : S} (h : Inv s) :
           cases dead with
           | true =>
             simp only [if_true]
-            exact ⟨_, _, rfl, ⟨hl1, hse1, ok.inv.eMax, ok.inv.dec⟩, by dsimp only; rw [ok.dec]⟩
+            exact ⟨_, _, rfl, ⟨hl1, hse1, ok.inv.eMax, ok.inv.dec⟩, by dsimp only; rw [ok.dec], by dsimp only; rw [← hp, ok.port],
+              fun hh => absurd (by rw [← ok.port]; exact hp) hh⟩
           | false =>
             simp only [Bool.false_eq_true, if_false]
             obtain ⟨r0, hr0, ed, eo, _⟩ := hnd rfl
@@ -136,7 +138,8 @@ theorem getUserData_ok' (o : Oracle) {s : S} (h : Inv s) :
                         tend := s1.tend + r.out.length, dec := r.d, cbCount := n' }
               (by dsimp only; rw [hl3, hl2]; omega)
             rw [hf]
-            refine ⟨_, _, rfl, ⟨?_, ?_, ?_, decInv_fl (by rw [ed]; exact ck.inv) f⟩, ?_⟩
+            refine ⟨_, _, rfl, ⟨?_, ?_, ?_, decInv_fl (by rw [ed]; exact ck.inv) f⟩, ?_, by dsimp only; rw [← hp, ok.port],
+              fun hh => absurd (by rw [← ok.port]; exact hp) hh⟩
             · dsimp only; rw [hl3, hl2]; exact hl1
             · dsimp only; omega
             · dsimp only; omega
@@ -155,9 +158,11 @@ theorem getUserData_ok' (o : Oracle) {s : S} (h : Inv s) :
           rw [h1]
           have hd2 : DecInv s2.dec := by rw [h5]; exact ok.inv.dec
           have hs2 : s2.dec.fl.single = s.dec.fl.single := by rw [h5]; dsimp only; rw [ok.dec]
+          have hp2 : s2.port = s.port := by rw [h6]; dsimp only; rw [← hp, ok.port]
+          have hdd : s.port ≠ .telnet → s2.dec = s.dec := fun _ => by rw [h5]; dsimp only; exact ok.dec
           cases e with
-          | aborted => exact ⟨_, _, rfl, ⟨h2, h3, h4, hd2⟩, hs2⟩
-          | dead => exact ⟨_, _, rfl, ⟨h2, h3, h4, hd2⟩, hs2⟩
+          | aborted => exact ⟨_, _, rfl, ⟨h2, h3, h4, hd2⟩, hs2, hp2, hdd⟩
+          | dead => exact ⟨_, _, rfl, ⟨h2, h3, h4, hd2⟩, hs2, hp2, hdd⟩
           | done =>
             dsimp only
             split
@@ -166,17 +171,19 @@ theorem getUserData_ok' (o : Oracle) {s : S} (h : Inv s) :
               have hw3 : 0 + (slice s2.text s2.tstart s2.tend).length ≤ s2.text.length := by omega
               rw [writeAt_ok hw3]
               dsimp only
-              refine ⟨_, _, rfl, ⟨?_, ?_, ?_, hd2⟩, hs2⟩
+              refine ⟨_, _, rfl, ⟨?_, ?_, ?_, hd2⟩, hs2, hp2, hdd⟩
               · dsimp only; rw [writeAt_length (writeAt_ok hw3)]; exact h2
               · dsimp only; omega
               · dsimp only; omega
-            · exact ⟨_, _, rfl, ⟨h2, h3, h4, hd2⟩, hs2⟩
+            · exact ⟨_, _, rfl, ⟨h2, h3, h4, hd2⟩, hs2, hp2, hdd⟩
         | binary =>
           dsimp only
           cases o s1.cbCount <;>
-            exact ⟨_, _, rfl, ⟨hl1, hse1, ok.inv.eMax, ok.inv.dec⟩, by dsimp only; rw [ok.dec]⟩
+            exact ⟨_, _, rfl, ⟨hl1, hse1, ok.inv.eMax, ok.inv.dec⟩, by dsimp only; rw [ok.dec], by dsimp only; rw [← hp, ok.port],
+              fun _ => ok.dec⟩
         | console =>
-          exact ⟨_, _, rfl, ⟨hl1, hse1, ok.inv.eMax, ok.inv.dec⟩, by dsimp only; rw [ok.dec]⟩
+          exact ⟨_, _, rfl, ⟨hl1, hse1, ok.inv.eMax, ok.inv.dec⟩, by dsimp only; rw [ok.dec], by dsimp only; rw [← hp, ok.port],
+            fun _ => ok.dec⟩
 
 theorem consoleMakeRoom_ok {s : S} (h : Inv s) (len : Nat) :
     ∃ s1, consoleMakeRoom s len = .ok s1 ∧ Inv s1 ∧ s1.dec = s.dec := by
@@ -233,7 +240,7 @@ theorem addConsoleLine_ok' {s : S} (h0 : Inv s) (bytes : List Byte) :
     · dsimp only; exact hfs
 
 theorem getUserData_ok (o : Oracle) {s : S} (h : Inv s) : ∃ s' evs, getUserData o s = .ok (s', evs) ∧ Inv s' :=
-  let ⟨s', evs, h1, h2, _⟩ := getUserData_ok' o h
+  let ⟨s', evs, h1, h2, _, _, _⟩ := getUserData_ok' o h
   ⟨s', evs, h1, h2⟩
 
 theorem addConsoleLine_ok {s : S} (h : Inv s) (bytes : List Byte) : ∃ s', addConsoleLine s bytes = .ok s' ∧ Inv s' :=
